@@ -94,6 +94,10 @@ func (s *Service) NewRunNumber() (runNumber uint32, err error) {
 		}
 		runNumber = uint32(rn64)
 		runNumber++
+		if runNumber == 0 {
+			err = errors.New("cannot increment run counter: uint32 counter exhausted")
+			return
+		}
 		raw = []byte(strconv.FormatUint(uint64(runNumber), 10))
 		err = ioutil.WriteFile(rnf, raw, 0)
 		return
